@@ -70,11 +70,26 @@ def words_of(lang):
     return out, months
 
 
-def gen_text(rnd, lang, voc, months, bylang):
+def a_date(rnd, months):
+    """One date in one of several common shapes (month name in the language's own words, or all-numeric)."""
+    d, m, y = rnd.randrange(1, 29), rnd.randrange(1, 13), rnd.randrange(1990, 2030)
+    mn = rnd.choice(months) if months else "May"
+    return rnd.choice(["%d %s %d" % (d, mn, y), "%s %d, %d" % (mn, d, y), "%02d/%02d/%d" % (d, m, y), "%d.%d.%d" % (d, m, y),
+                       "%d-%02d-%02d" % (y, m, d), "%d-%d-%d" % (d, m, y), "%d %s" % (d, mn), "%s %d" % (mn, y)])
+
+
+def gen_text(rnd, lang, voc, months, bylang, skips=()):
     parts = []
     for j in range(rnd.randrange(1, 7)):
         c = rnd.random()
-        if c < 0.3 and voc:
+        if c < 0.12:
+            parts.append(a_date(rnd, months))
+        elif c < 0.2:
+            # dates joined by one of the language's own connecting words ('and', 'et', 'и' ...), possibly several such
+            # groups in one text: the hits must still come back in text order, without overlap
+            w = rnd.choice(list(skips) or ["and"])
+            parts.append("%s %s %s" % (a_date(rnd, months), w, a_date(rnd, months)))
+        elif c < 0.3 and voc:
             parts.append(rnd.choice(voc))
         elif c < 0.45 and bylang.get(lang):
             parts.append(rnd.choice(bylang[lang]))
@@ -228,8 +243,9 @@ def run_texts(ctx, desc):
     cons = ConservationMonitor()
     for lang in langs:
         voc, months = words_of(lang)
+        skips = [w for w in (vocab.locale_info(lang, lang).get("skip") or []) if isinstance(w, str) and w.strip(" .,;:'-")]
         for t in range(N_TEXTS[ctx.tier]):
-            text, parts, joiner = gen_text(rnd, lang, voc, months, bylang)
+            text, parts, joiner = gen_text(rnd, lang, voc, months, bylang, skips)
             base = rnd.random() < 0.5
             adl = rnd.random() < 0.5
             check_text(ctx, text, [lang], adl, base, parts, joiner)
